@@ -58,6 +58,9 @@ func Make[T any](n ...int) *Chan[T] {
 	return c
 }
 
+// NewVar returns a fresh variable of the channel's element type (used by the select rewrite).
+func NewVar[T any](c *Chan[T]) *T { return new(T) }
+
 func Len[T any](c *Chan[T]) int {
 	if sched.Active() == nil {
 		c.mu.Lock()
